@@ -11,7 +11,7 @@ RULE = ('Hypothesis-generated abstract netlists (33 primitives through all docum
         'DFF Q/QN, latches, open input pins, open outputs, both port styles) x 0/1 stimuli x batch sizes 1..70 x 1..4 cycles '
         'x {c_reuse} x {strip_forks}; oracle = own gate-by-gate evaluator. non-trivial: depth >= 3 and at least one of '
         '{reconvergent fan-out, state element feeding logic, open pin, batch size not a multiple of 8, >= 2 cycles}; '
-        'distinct by SHA-1 of the case. Part big: a few deterministic chains with more than 2^16 nodes and lines (index arithmetic).')
+        'distinct by SHA-1 of the case. Part big: a few deterministic chains with more than 2^16 nodes and lines and grids of 7k-36k cells with many values alive at once (index and counter arithmetic).')
 ASSUMPTIONS = ['numba absent: the njit 2-valued loop runs as plain Python (same source)',
                'reference evaluator vk/refmodel.py written from the primitive names, independent of sim.py LUTs']
 
@@ -116,7 +116,15 @@ def enum_big(tier):
     """a few circuits with more than 2^16 lines and nodes (index arithmetic in narrow integer types would wrap)"""
     yield dict(n=70000, c_reuse=False, strip_forks=False, sims=3)
     yield dict(n=70000, c_reuse=True, strip_forks=True, sims=9)
+    yield dict(grid=(24, 320), c_reuse=True, strip_forks=False, sims=11)      # > 2^15 references to the constant-0 slot, 24 values alive
+    yield dict(grid=(24, 320), c_reuse=False, strip_forks=True, sims=5)
+    yield dict(rand=(8, 9000, 24, 60, 1), c_reuse=True, strip_forks=False, sims=13)
+    yield dict(rand=(16, 6000, 40, 200, 2), c_reuse=True, strip_forks=True, sims=7)
     if tier == 'thorough':
+        yield dict(grid=(40, 900), c_reuse=True, strip_forks=True, sims=3)    # > 2^16 such references
+        yield dict(grid=(7, 2000), c_reuse=True, strip_forks=False, sims=64)
+        for k in range(3, 9):
+            yield dict(rand=(4 + k, 4000 * k, 30, 20 * k * k, k), c_reuse=k != 5, strip_forks=bool(k & 1), sims=1 + 9 * k)
         yield dict(n=140000, c_reuse=True, strip_forks=False, sims=1)
         yield dict(n=33000, c_reuse=False, strip_forks=True, sims=17)
 
@@ -124,6 +132,8 @@ def enum_big(tier):
 def prop_big(case):
     from kyupy.circuit import Circuit, Node, Line
     from kyupy.logic_sim import LogicSim
+    if 'grid' in case or 'rand' in case:
+        return prop_grid(case)
     n, sims = case['n'], case['sims']
     mask = (1 << sims) - 1
     c = Circuit('big')
@@ -160,5 +170,37 @@ def prop_big(case):
     return Obs(True, [f'lines>{2 ** 16}' if len(c.lines) > 2 ** 16 else 'lines>2^15'], checks=1)
 
 
+def prop_grid(case):
+    from kyupy.logic_sim import LogicSim
+    from vk import bigcirc
+    sims = case['sims']
+    mask = (1 << sims) - 1
+    if 'grid' in case:
+        width, depth = case['grid']
+        vals = [(0x9e3779b97f4a7c15 * (j + 3) >> 7) & mask for j in range(width)]
+        c, exp = bigcirc.grid(width, depth, vals, mask)
+        what = f'grid {width}x{depth}'
+    else:
+        width, n_gates, n_out, window, sd = case['rand']
+        vals = [(0x9e3779b97f4a7c15 * (j + 3 + sd) >> 7) & mask for j in range(width)]
+        c, exp = bigcirc.randnet(width, n_gates, n_out, window, sd, vals, mask)
+        what = f'irregular netlist {case["rand"]}'
+    nout = len(exp)
+    sim = LogicSim(c, sims, m=2, c_reuse=case['c_reuse'], strip_forks=case['strip_forks'])
+    for rnd in range(2):                                 # the simulator is used twice
+        stim = np.zeros((width + nout, sims), dtype=np.uint8)
+        for j in range(width):
+            stim[j] = [3 * ((vals[j] >> l) & 1) for l in range(sims)]
+        sim.s[0] = pack_bp(stim)
+        sim.s_to_c(); sim.c_prop(); sim.c_to_s()
+        res = unpack_bp(sim.s[1], sims)
+        for j in range(nout):
+            want = [3 * ((exp[j] >> l) & 1) for l in range(sims)]
+            if [int(x) for x in res[width + j]] != want:
+                raise Violation(f'{what} ({len(c.lines)} lines) c_reuse={case["c_reuse"]} strip_forks={case["strip_forks"]} round {rnd}: '
+                                f'output {j} = {res[width + j].tolist()}, expected {want}')
+    return Obs(True, ['grid' if 'grid' in case else 'irregular', f'cells>={(len(c.nodes) - len(c.forks)) // 1000}k'], checks=2 * nout)
+
+
 PARTS = [Part('sim2v', prop, strategy=cases, quick=(8, 500), thorough=(16, 25000)),
-         Part('big', prop_big, enumerate=enum_big, quick=(2, 0), thorough=(4, 0))]
+         Part('big', prop_big, enumerate=enum_big, quick=(6, 0), thorough=(12, 0))]
